@@ -470,4 +470,111 @@ theorem trun_eq {w : Nat} (ops : List TOp) : ∀ {t s}, TRepr w t s → trun w t
     simp only [trun, Counters.trun]
     rw [hs.2, ih hs.1]
 
+/-! ### several keys and copies of bit-field values -/
+
+/-- `_set` whatever the store holds for the key (a stale entry or not) -/
+theorem tset_view' (t : TState) (a ttl : Nat) :
+    (tset t a ttl).view =
+      some ⟨a, if ttl ≠ 0 then some (t.now + ttl) else t.view.bind (·.dl)⟩ := by
+  obtain ⟨now, slot⟩ := t
+  by_cases httl : ttl = 0
+  · subst httl
+    cases slot with
+    | none => simp [tset, TState.view, Slot.expired]
+    | some sl =>
+      obtain ⟨b, dl⟩ := sl
+      by_cases he : Slot.expired ⟨b, dl⟩ now
+      · cases dl with
+        | none => simp [Slot.expired] at he
+        | some d =>
+          have hd : d ≤ now := by simpa [Slot.expired] using he
+          simp [tset, TState.view, Slot.expired, hd]
+      · have he' : Slot.expired ⟨b, dl⟩ now = false := by simpa using he
+        have he'' : Slot.expired ⟨a, dl⟩ now = false := by simpa [Slot.expired] using he'
+        simp [tset, TState.view, he', he'']
+  · have : ¬ (now + ttl ≤ now) := by omega
+    simp [tset, TState.view, httl, Slot.expired, this]
+
+theorem MState.set_same (m : MState) (k : Nat) (t : TState) : (m.set k t) k = t := by simp [MState.set]
+
+theorem MCounters.set_same (m : Counters.MCounters) (k : Nat) (t : Counters.TCounters) : (m.set k t) k = t := by
+  simp [Counters.MCounters.set]
+
+def MRepr (w : Nat) (m : MState) (s : Counters.MCounters) : Prop := ∀ k, TRepr w (m k) (s k)
+
+theorem mrepr_init (w now : Nat) : MRepr w (fun _ => ⟨now, none⟩) (fun _ => Counters.fresh now) :=
+  fun _ => trepr_init w now
+
+theorem mstep_eq {w m s} (h : MRepr w m s) (op : MOp) :
+    MRepr w (mstep w m op).1 (Counters.mstep w s op).1 ∧ (mstep w m op).2 = (Counters.mstep w s op).2 := by
+  cases op with
+  | on k op =>
+    have hk := tstep_eq (h k) op
+    refine ⟨?_, hk.2⟩
+    intro k'
+    simp only [mstep, Counters.mstep, MState.set, Counters.MCounters.set]
+    by_cases e : k' = k
+    · simp only [e, if_true]; exact hk.1
+    · simp only [e, if_false]; exact h k'
+  | adv dt =>
+    exact ⟨fun k => (tstep_eq (h k) (.adv dt)).1, rfl⟩
+  | copy src dst ttl =>
+    have hsrc := h src
+    have hget : TRepr w (tget (m src)).1 (s src) := trepr_of_view hsrc (tget_now _) (tget_view _)
+    have hm' : MRepr w (m.set src (tget (m src)).1) s := by
+      intro k
+      simp only [MState.set]
+      by_cases e : k = src
+      · simp only [e, if_true]; exact hget
+      · simp only [e, if_false]; exact h k
+    cases hv : (m src).view with
+    | none =>
+      have hl : (s src).live = false := by have := hsrc.2; rw [hv] at this; exact this.1
+      have e1 : mstep w m (.copy src dst ttl) = (m.set src (tget (m src)).1, b2l false) := by
+        simp only [mstep, tget_snd, hv]
+      have e2 : Counters.mstep w s (.copy src dst ttl) = (s, b2l false) := by
+        simp [Counters.mstep, hl]
+      rw [e1, e2]; exact ⟨hm', rfl⟩
+    | some sl =>
+      have hs := hsrc.2; rw [hv] at hs
+      have e1 : mstep w m (.copy src dst ttl) =
+          ((m.set src (tget (m src)).1).set dst (tset ((m.set src (tget (m src)).1) dst) sl.a ttl), b2l true) := by
+        simp only [mstep, tget_snd, hv]
+      have e2 : Counters.mstep w s (.copy src dst ttl) =
+          (s.set dst { (s dst) with c := (s src).c, live := true,
+                                    dl := if ttl ≠ 0 then some ((s dst).now + ttl) else (s dst).dl }, b2l true) := by
+        simp [Counters.mstep, hs.1]
+      rw [e1, e2]
+      refine ⟨?_, rfl⟩
+      intro k
+      by_cases e : k = dst
+      · subst e
+        have hd := hm' k
+        show TRepr w ((MState.set _ k _) k) ((Counters.MCounters.set _ k _) k)
+        rw [MState.set_same, MCounters.set_same]
+        generalize (m.set src (tget (m src)).1) k = D at hd ⊢
+        refine ⟨?_, ?_⟩
+        · rw [tset_now]; exact hd.1
+        · rw [tset_view']
+          refine ⟨rfl, ?_, hs.2.2⟩
+          have hdv := hd.2
+          by_cases httl : ttl = 0
+          · simp only [httl, ne_eq, not_true_eq_false, if_false]
+            cases hvv : D.view with
+            | none => rw [hvv] at hdv; simpa using hdv.2.1
+            | some sl' => rw [hvv] at hdv; simpa using hdv.2.1
+          · simp only [httl, ne_eq, not_false_eq_true, if_true]
+            rw [← hd.1]
+      · simp only [MState.set, Counters.MCounters.set, e, if_false]
+        exact hm' k
+
+theorem mrun_eq {w : Nat} (ops : List MOp) : ∀ {m s}, MRepr w m s → mrun w m ops = Counters.mrun w s ops := by
+  induction ops with
+  | nil => intros; rfl
+  | cons op rest ih =>
+    intro m s h
+    have hs := mstep_eq h op
+    simp only [mrun, Counters.mrun]
+    rw [hs.2, ih hs.1]
+
 end CashewsVerif.Bits
